@@ -234,6 +234,12 @@ func Render(r *rand.Rand, recs []SeqRec, st FileStyle) []byte {
 			if rec.HasTaxon {
 				fmt.Fprintf(&sb, "                     /db_xref=\"taxon:%d\"%s", rec.Taxid, eol)
 			}
+			if r.Intn(3) == 0 {
+				// a qualifier wrapped right after "http://": the line ENDS with the two slashes that,
+				// at the START of a line, terminate an entry
+				fmt.Fprintf(&sb, "                     /note=\"data and protocol at http://%s", eol)
+				fmt.Fprintf(&sb, "                     example.org/%s\"%s", rec.ID, eol)
+			}
 			if rec.Seq == "" {
 				// an entry of the CON division: the sequence is given by reference, there is no ORIGIN block
 				sb.WriteString("CONTIG      join(" + rec.ID + "P1.1:1..100,gap(20)," + rec.ID + "P2.1:1..200)" + eol)
@@ -263,6 +269,10 @@ func Render(r *rand.Rand, recs []SeqRec, st FileStyle) []byte {
 			fmt.Fprintf(&sb, "FT                   /organism=\"%s\"%s", rec.SciName, eol)
 			if rec.HasTaxon {
 				fmt.Fprintf(&sb, "FT                   /db_xref=\"taxon:%d\"%s", rec.Taxid, eol)
+			}
+			if r.Intn(3) == 0 {
+				fmt.Fprintf(&sb, "FT                   /note=\"data and protocol at http://%s", eol)
+				fmt.Fprintf(&sb, "FT                   example.org/%s\"%s", rec.ID, eol)
 			}
 			fmt.Fprintf(&sb, "SQ   Sequence %d BP;%s", len(seq), eol)
 			for p := 0; p < len(seq); p += 60 {
